@@ -404,7 +404,11 @@ func (s *scriptT) renderCaller(c *Case, calleeExpr string, setup []string) {
 		}
 	case "go":
 		// the callee signals when it has returned; the results of a go statement are discarded
-		s.run = append(s.run, "go "+call, "hp.Wait()")
+		if c.Rebind && c.Recv == "ptr" {
+			s.run = append(s.run, "go "+call, "cp = hp.NewCounter(50)", "hp.Wait()")
+		} else {
+			s.run = append(s.run, "go "+call, "hp.Wait()")
+		}
 		for i := range recorded {
 			recorded[i] = false
 		}
